@@ -1,11 +1,13 @@
 """Per-property and per-suite configuration of the orchestrator."""
 
 # .vo files Extract.v depends on (built before extraction)
-EXTRACT_DEPS = ['Codec/FilterCase.vo']
+EXTRACT_DEPS = ['Codec/FilterCase.vo', 'Agent/ReasmRs.vo']
 
 SUITES = {
     # bin: harness binary; driver: suite name given to ocaml/driver; nontrivial: regex on the record line
     'filter': dict(bin='filter', nontrivial=r'^C \S+ \S*[MSF]\S*[OMSF]'),
+    # non-trivial: at least two chunks
+    'reasm': dict(bin='reasm', nontrivial=r'^C \d+ \S+ \S+'),
 }
 
 PROPS = {
@@ -19,5 +21,15 @@ PROPS = {
         exhaustive=dict(quick=False, thorough=True),
         assumptions=['kind-level model: typed attribute decoders always succeed on the generated (well-formed) attributes; '
                      'a later duplicate integrity attribute never verifies (HMAC/CRC collision excluded)'],
+    ),
+    'C16': dict(
+        suites=['reasm'],
+        monitors=['C16'],
+        rule='suite reasm: streams of 1-3 generated packets (0-1000 attribute bytes), optionally with a corrupted header, a trailing '
+             'incomplete packet or a buffer smaller than a packet; buffer sizes {19, 20, max-1, max, max+1, max+100, min}; chunkings: whole, '
+             'byte by byte, all 1-cuts, 2-cuts (all in thorough, every third offset in quick), sampled 3-cuts, random multi-cuts with empty and '
+             'one-byte chunks; the caller loop re-feeds the remainder of a chunk to a new decoder. distinct = distinct record lines; '
+             'non-trivial = at least two chunks',
+        assumptions=['the caller allocates a new buffer of the same size for every new decoder (as the documentation shows)'],
     ),
 }
